@@ -51,6 +51,11 @@ def order_tree(rng, big=False):
         nodes.append({"name": dn, "kind": "dir", "kids": kids, "mtime": rng.choice(MT)})
     for n in rng.sample(names, rng.randint(0, 4)):
         nodes.append({"name": n, "kind": "file", "size": rng.choice(sizes), "mtime": rng.choice(MT)})
+    # digit-only names of different lengths and with a leading zero: as TEXT 10 < 9 and 07 < 10 < 9 (a numeric reading orders them 07, 9, 10)
+    top = {n["name"] for n in nodes}
+    for nm in ("9", "10", "07", "100"):
+        if nm not in top:
+            nodes.append({"name": nm, "kind": "file", "size": rng.choice(sizes), "mtime": rng.choice(MT)})
     # link counts of one, two and more than nine digits' worth: 12 sorts after 2 as a number, before it as text
     nodes.append({"name": "hl12", "kind": "file", "size": 70000, "hardlinks": ["hl12_%d" % i for i in range(rng.choice([9, 11]))]})
     nodes.append({"name": "hl2", "kind": "file", "size": 4097, "hardlinks": ["hl2_1"]})
